@@ -129,13 +129,13 @@ Section WithDigest.
     | o :: r => let c := fcheck fw o in if fst c =? 0 then fcheck_seq (snd c) r else c
     end.
 
-  Definition fxfer (fw : fworld) (v : bool) (items : list item) : list oid * list oid * fworld :=
+  Definition fxfer (fw : fworld) (v : option bool) (items : list item) : list oid * list oid * fworld :=
     let r := foids_exist fw (map it_oid items) in
     let new := xfer_new (fst r) items in
     match new with
     | [] => ([], [], snd r)
     | _ :: _ =>
-        let a := fadd (snd r) (Some v) new in
+        let a := fadd (snd r) v new in
         (filter (fun o => negb (mem_oid o (snd (fst a)))) (map it_oid new), snd (fst a), snd a)
     end.
 
